@@ -1,5 +1,6 @@
 """C01 — generated views report structure state and values as the .emb defines."""
 import glob
+import json
 import os
 
 from harness import fw, gen_view, view_x, cpp_build, view_ref
@@ -227,6 +228,32 @@ def run(ctx):
         infos.append(dict(i=1000 + ci, text="# %s, structure %s\n" % (rel, ".".join(t.name.canonical_name.object_path)) + open(os.path.join(fw.REPO, rel)).read(),
                           mod=cterm, top=k, bufs=bufs, prefix_pairs=[], pvals=pvals, oracle=[]))
         ctx.count("corpus-structure")
+    # ---- fixed modules of corpus/C01 (shapes no random module reaches), every run, with their own buffers
+    for fi, fp in enumerate(sorted(glob.glob(os.path.join(fw.VERIF, "corpus", "C01", "*.json")))):
+        item = json.load(open(fp))
+        rel = "corpus/C01/" + os.path.basename(fp)
+        try:
+            fir, ferrs = compile_ir(item["text"], "m.emb")
+            if ferrs:
+                ctx.violation("corpus-module-rejected", "the fixed module %s is rejected by the front end: %s" % (rel, ferrs[0][0].message if ferrs else ""),
+                              dict(kind="module", module=item["text"]), found_input=True)
+                continue
+            from compiler.back_end.cpp import header_generator
+            fheader, fherrs = header_generator.generate_header(fir)
+            ftr = view_x.ViewTranslator(fir)
+            fterm = ftr.module()
+            for k, t in enumerate(ftr.types):
+                if t.name.name.text not in item["structures"]:
+                    continue
+                bufs = [b for b in item["buffers"]]
+                driver = ftr.driver("/*INLINE*/\n" + fheader, k, [], bufs)
+                jobs.append(cpp_build.CppJob("m%d" % (2000 + 10 * fi + k), None, driver))
+                infos.append(dict(i=2000 + 10 * fi + k, text="# %s, structure %s\n" % (rel, t.name.name.text) + item["text"],
+                                  mod=fterm, top=k, bufs=bufs, prefix_pairs=[], pvals=[], oracle=[]))
+                ctx.count("fixed-corpus-structure")
+        except OutOfModel as ex:
+            ctx.count("fixed-corpus-out-of-model:" + str(ex).split(" ")[0])
+            ctx.note("fixed corpus module %s is out of model: %r" % (rel, ex))
     ctx.obligation("tie for size_is_max_end: %d structures' synthesized $size fields have the modelled shape" % n_size_checked,
                    n_size_checked > 0 and not any(v["key"] == "size-synthesis" for v in ctx.violations))
     results = cpp_build.run_jobs(os.path.join(ctx.bdir, "cpp"), jobs, parallel=fw.NPROC)
